@@ -322,3 +322,92 @@ func FuzzC05(f *testing.F) {
 		DecideFuzz(t, c05Load, c05Case{Pieces: []string{s}, Seed: "fuzz", Kind: "fuzz"})
 	})
 }
+
+// ---------------------------------------------------------------------------------------
+// constructed expectations over generated scripts (independent of the grammar code)
+
+var mixedPrefixes = []string{" \t", "\t ", "\t    ", "    \t", "\t\t ", " \t\t", "\t        ", "        \t", "  \t  ", "\t \t"}
+
+func genC05Constructed(t *rapid.T) c05Case {
+	sc := genScript(t, scriptOpts{maxNodes: 3, maxDepth: 3, maxBody: 4})
+	lay := genLayout(t)
+	pieces := renderScript(sc, &lay)
+	c := c05Case{Pieces: pieces, Seed: "s1", Kind: "generated", Expect: "accept"}
+	if rapid.Bool().Draw(t, "break") {
+		// re-indent one statement line of one node body with a mixture of tabs and blanks
+		pi := rapid.IntRange(0, len(pieces)-1).Draw(t, "piece")
+		lines := strings.SplitAfter(pieces[pi], "\n")
+		var candidates []int
+		inBody := false
+		for i, l := range lines {
+			trimmed := strings.TrimSpace(l)
+			switch {
+			case trimmed == "---":
+				inBody = true
+			case trimmed == "===":
+				inBody = false
+			case inBody && trimmed != "" && !strings.HasPrefix(trimmed, "//"):
+				candidates = append(candidates, i)
+			}
+		}
+		if len(candidates) == 0 {
+			return c
+		}
+		i := candidates[rapid.IntRange(0, len(candidates)-1).Draw(t, "line")]
+		prefix := rapid.SampledFrom(mixedPrefixes).Draw(t, "prefix")
+		lines[i] = prefix + strings.TrimLeft(lines[i], " \t")
+		pieces[pi] = strings.Join(lines, "")
+		c.Kind, c.Expect = "generated + one line indented with tabs and blanks", "reject"
+	}
+	return c
+}
+
+var c05Constructed = Register(Prop[c05Case]{ID: "C05", Name: "constructed", Gen: genC05Constructed, Run: runC05, Render: renderC05})
+
+func TestC05Constructed(t *testing.T) { Check(t, c05Constructed) }
+
+// ---------------------------------------------------------------------------------------
+// sequences of loads in one process: whatever was loaded before (valid, invalid, cut in the middle of an
+// indented block) must not influence the next load
+
+type c05SeqCase struct {
+	Loads []c05Case `json:"loads"`
+}
+
+var lexerTrailers = []string{"\n    // indented trailing comment", "\n    ", "\n\t\t// c", "    ", "\n        -> x", "\n    y\n        z", "\n  <<", "\n    {"}
+
+func runC05Seq(c c05SeqCase) Verdict {
+	refused := 0
+	for i, l := range c.Loads {
+		v := runC05(l)
+		if v.Fail != "" {
+			return failf("load %d of %d in one process: %s", i+1, len(c.Loads), v.Fail)
+		}
+		for _, cl := range v.Classes {
+			if cl == "refused" {
+				refused++
+			}
+		}
+	}
+	return Verdict{NonTrivial: len(c.Loads) >= 2 && refused >= 1 && refused < len(c.Loads), Classes: []string{fmt.Sprintf("loads=%d", len(c.Loads)), fmt.Sprintf("refused=%d", refused)}}
+}
+
+var c05Seq = Register(Prop[c05SeqCase]{
+	ID: "C05", Name: "sequence",
+	Gen: func(t *rapid.T) c05SeqCase {
+		var c c05SeqCase
+		n := rapid.IntRange(1, 3).Draw(t, "before")
+		for i := 0; i < n; i++ {
+			l := genC05(t)
+			if rapid.IntRange(0, 2).Draw(t, "trailer") == 0 {
+				l = c05Case{Pieces: []string{genBaseScript(t) + rapid.SampledFrom(lexerTrailers).Draw(t, "tr")}, Seed: "a", Kind: "valid+trailer"}
+			}
+			c.Loads = append(c.Loads, l)
+		}
+		c.Loads = append(c.Loads, c05Case{Pieces: []string{genBaseScript(t)}, Seed: "z9", Kind: "valid", Expect: "accept"})
+		return c
+	},
+	Run: runC05Seq,
+})
+
+func TestC05Sequence(t *testing.T) { Check(t, c05Seq) }
